@@ -20,7 +20,9 @@ use cryptoxide::hashing::{blake2b, blake2s};
 pub const W_UPDATE: u8 = 0;
 pub const W_UPDATE_MUT: u8 = 1;
 pub const W_FORK: u8 = 2;
-const W_KINDS: &[&str] = &["update", "update_mut", "fork"];
+pub const W_RESET: u8 = 3; // plain reset: a new unkeyed context, counter back to zero whatever it was
+pub const W_FINRESET: u8 = 4; // finalize_reset_at: digest under the preset, then as W_RESET
+const W_KINDS: &[&str] = &["update", "update_mut", "fork", "reset", "finalize_reset"];
 
 pub struct CtrWrap;
 
@@ -31,6 +33,8 @@ trait CObj {
     fn counter(&self) -> u128;
     fn set_counter(&mut self, c: u128);
     fn finalize(self: Box<Self>) -> Vec<u8>;
+    fn reset(&mut self);
+    fn finalize_reset(&mut self) -> Vec<u8>;
 }
 
 macro_rules! cobj {
@@ -65,6 +69,14 @@ macro_rules! cobj {
                 self.0.finalize_at(&mut out);
                 out
             }
+            fn reset(&mut self) {
+                self.0.reset()
+            }
+            fn finalize_reset(&mut self) -> Vec<u8> {
+                let mut out = vec![0u8; self.1];
+                self.0.finalize_reset_at(&mut out);
+                out
+            }
         }
     };
 }
@@ -87,6 +99,9 @@ fn make_c(name: &str, outlen: usize, key: &[u8]) -> Box<dyn CObj> {
 struct WHandle {
     obj: Box<dyn CObj>,
     log: Vec<u8>,
+    /// counter preset in force (0 after a reset) and whether the key still applies (a plain reset drops it)
+    preset: u128,
+    keyed: bool,
 }
 
 impl Scenario for CtrWrap {
@@ -137,6 +152,12 @@ impl Scenario for CtrWrap {
                 handles += 1;
                 continue;
             }
+            if rng.chance(1, 10) {
+                // a reset or finalize-and-reset with the counter wherever the history left it (also exactly on the wrap)
+                t.ops.push(Op::new(rng.below(handles as u64) as u8, if rng.chance(1, 2) { W_RESET } else { W_FINRESET }));
+                fill = 0;
+                continue;
+            }
             let len = chunk_len(rng, b, fill, false).min(5 * b);
             let k = if rng.chance(1, 2) { W_UPDATE } else { W_UPDATE_MUT };
             t.ops.push(Op::new(rng.below(handles as u64) as u8, k).len(len).seed(rng.data_seed()).off(rng.below(32) as u8));
@@ -177,12 +198,22 @@ impl Scenario for CtrWrap {
         };
         let first = mk().map_err(|m| Violation::new("unexpected-panic", 0, "context constructed", m, name))?;
         obs.hit("fault.counter_preset");
-        let mut hs: Vec<WHandle> = vec![WHandle { obj: first, log: Vec::new() }];
-        let keyb = if key.is_empty() { 0 } else { b };
-        let expect_counter = |loglen: usize| -> u128 {
+        let mut hs: Vec<WHandle> = vec![WHandle { obj: first, log: Vec::new(), preset, keyed: !key.is_empty() }];
+        let expect_counter_of = |preset: u128, keyb: usize, loglen: usize| -> u128 {
             let total = keyb + loglen;
             let tail = if total == 0 { 0 } else { ((total - 1) % b) + 1 };
             (preset.wrapping_add((total - tail) as u128)) & total_mask
+        };
+        // digest of `log` through one update + finalize of a fresh context under the given preset / key
+        let one_call = |p: u128, keyed: bool, log: &[u8]| -> Result<Vec<u8>, String> {
+            guarded(|| {
+                let mut o = make_c(name, outlen, if keyed { &key } else { &[] });
+                if p != 0 {
+                    o.set_counter(p);
+                }
+                o.update_mut(log);
+                o.finalize()
+            })
         };
         for (i, op) in t.ops.iter().enumerate() {
             let h = op.h as usize;
@@ -195,13 +226,42 @@ impl Scenario for CtrWrap {
                     if hs.len() >= 4 {
                         continue;
                     }
-                    let n = WHandle { obj: guarded(|| hs[h].obj.fork()).map_err(|m| Violation::new("unexpected-panic", i, "clone", m, name))?, log: hs[h].log.clone() };
+                    let n = WHandle { obj: guarded(|| hs[h].obj.fork()).map_err(|m| Violation::new("unexpected-panic", i, "clone", m, name))?, log: hs[h].log.clone(), preset: hs[h].preset, keyed: hs[h].keyed };
                     hs.push(n);
+                }
+                W_RESET | W_FINRESET => {
+                    let hd = &mut hs[h];
+                    obs.hit(if op.k == W_RESET { "fault.reset_with_a_preset_counter" } else { "fault.finalize_reset_with_a_preset_counter" });
+                    let keyb = if hd.keyed { b } else { 0 };
+                    let at = hd.preset.wrapping_add((keyb + hd.log.len()) as u128) & total_mask;
+                    if hd.preset != 0 && at & word_max == 0 {
+                        obs.hit("probe.reset_with_the_low_counter_word_exactly_on_its_wrap");
+                    }
+                    if op.k == W_RESET {
+                        guarded(|| hd.obj.reset()).map_err(|m| Violation::new("unexpected-panic", i, "reset", m, name))?;
+                    } else {
+                        let got = guarded(|| hd.obj.finalize_reset()).map_err(|m| Violation::new("unexpected-panic", i, "finalize_reset (total length inside the algorithm's domain)", m, name))?;
+                        obs.out(&got);
+                        let want = one_call(hd.preset, hd.keyed, &hd.log).map_err(|m| Violation::new("unexpected-panic", i, "one-call path", m, name))?;
+                        if got != want {
+                            return Err(Violation::bytes("digest-mismatch", i, &want, &got, format!("{}: finalize_reset of a fragmented history vs one call over the same {} bytes under the same counter preset {:#x}", name, hd.log.len(), hd.preset)));
+                        }
+                    }
+                    // a reset context is a new unkeyed context: counter zero, key gone
+                    hd.log.clear();
+                    hd.preset = 0;
+                    hd.keyed = false;
+                    let got = hd.obj.counter();
+                    if got != 0 {
+                        return Err(Violation::new("counter-invariant", i, "0", format!("{:#x}", got), format!("{}: byte counter after {} of a context whose counter had been preset", name, W_KINDS[op.k as usize])));
+                    }
                 }
                 W_UPDATE | W_UPDATE_MUT => {
                     let hd = &mut hs[h];
                     let len = (op.len as usize).min(8 * b);
                     let a = Aligned::new(op.seed, len, (op.off % 32) as usize);
+                    let (preset, keyb) = (hd.preset, if hd.keyed { b } else { 0 });
+                    let expect_counter = |l: usize| expect_counter_of(preset, keyb, l);
                     let before = expect_counter(hd.log.len());
                     let r = if op.k == W_UPDATE { guarded(|| hd.obj.update_val(a.get())) } else { guarded(|| hd.obj.update_mut(a.get())) };
                     hd.log.extend_from_slice(a.get());
@@ -218,7 +278,7 @@ impl Scenario for CtrWrap {
                     // (counter advanced on input, buffered tail subtracted at compression time)
                     let fed = preset.wrapping_add((keyb + hd.log.len()) as u128) & total_mask;
                     if got != after && got != fed {
-                        return Err(Violation::new("counter-invariant", i, format!("{:#x}", after), format!("{:#x}", got), format!("{}: byte counter after update (preset {:#x}, {} bytes fed, keyed={})", name, preset, hd.log.len(), !key.is_empty())));
+                        return Err(Violation::new("counter-invariant", i, format!("{:#x}", after), format!("{:#x}", got), format!("{}: byte counter after update (preset {:#x}, {} bytes fed, keyed={})", name, preset, hd.log.len(), hd.keyed)));
                     }
                 }
                 _ => {}
@@ -228,19 +288,21 @@ impl Scenario for CtrWrap {
         // preset must give the same digest as one call
         let n = t.ops.len();
         for hd in hs.into_iter() {
-            let WHandle { obj, log } = hd;
+            let WHandle { obj, log, preset, keyed } = hd;
+            let keyb = if keyed { b } else { 0 };
             let total = keyb + log.len();
             let final_ctr = preset.wrapping_add(total as u128) & total_mask;
-            let carried = (final_ctr & word_max) < (expect_counter(log.len()) & word_max);
+            let carried = (final_ctr & word_max) < (expect_counter_of(preset, keyb, log.len()) & word_max);
             let got = guarded(move || obj.finalize()).map_err(|m| Violation::new("unexpected-panic", n, "finalize (total length inside the algorithm's domain)", m, format!("{} finalize with the byte counter near its word boundary{}", name, if carried { " symptom=panic-while-low-counter-word-wraps" } else { "" })))?;
             obs.out(&got);
-            let want = guarded(|| {
-                let mut o = make_c(name, outlen, &key);
-                o.set_counter(preset);
-                o.update_mut(&log);
-                o.finalize()
-            })
-            .map_err(|m| Violation::new("unexpected-panic", n, "one-call path (total length inside the algorithm's domain)", m, format!("{} one-call update+finalize with preset counter symptom=panic-while-low-counter-word-wraps", name)))?;
+            let want = one_call(preset, keyed, &log).map_err(|m| Violation::new("unexpected-panic", n, "one-call path (total length inside the algorithm's domain)", m, format!("{} one-call update+finalize with preset counter symptom=panic-while-low-counter-word-wraps", name)))?;
+            if preset == 0 && !keyed {
+                // after a reset the context must agree with the plain one-call function
+                let plain = crate::scn::hashctx::oneshot(name, outlen, &[], &log);
+                if plain != got {
+                    return Err(Violation::bytes("digest-mismatch", n, &plain, &got, format!("{}: digest after a reset of a context with a preset counter differs from the one-call digest of the {} bytes fed since", name, log.len())));
+                }
+            }
             if got != want {
                 return Err(Violation::bytes("digest-mismatch", n, &want, &got, format!("{}: fragmented history vs one call over the same {} bytes under the same counter preset {:#x}", name, log.len(), preset)));
             }
